@@ -39,7 +39,10 @@ def case(draw, big=False):
          "seed": draw(st.integers(0, 2 ** 32 - 1)), "seed2": draw(st.integers(0, 2 ** 32 - 1)),
          # seeds that differ only in a few (high or low) bits must still give different series
          "seed_alias": draw(st.sampled_from([1, 2 ** 8, 2 ** 16, 2 ** 24, 2 ** 31])),
-         "scale": draw(st.sampled_from([4.0, 0.25, 2.0, 9.0, 1e-4]))}
+         "scale": draw(st.sampled_from([4.0, 0.25, 2.0, 9.0, 1e-4])),
+         # object reuse: a second rate for the same object and length; contents scaled in place afterwards
+         "fs2": draw(st.sampled_from([None, 1.0, 2.0, 4.0, 0.8])),
+         "modify_in_place": draw(st.sampled_from([None, "setitem", "multiply"]))}
     if two_d:
         nd = draw(st.integers(8, 72))
         c["nd"] = nd
@@ -129,10 +132,34 @@ def run(c):
         tol = 1e-12 * max(float(np.abs(ref).max()), 1e-300)
         require(np.abs(np.asarray(s2) - ref).max() <= tol * 10, "scaling_by_c_scales_series_by_sqrt_c",
                 f"component={comp} c={sc} max diff={np.abs(np.asarray(s2) - ref).max()!r}")
+    # the same object used again with another sampling rate (same length), and after its contents were replaced in
+    # place: the record must be the one a freshly built object gives (nothing remembered from earlier calls)
+    fs2 = c.get("fs2")
+    if fs2 and fs2 != fs:
+        _, s_reuse = surface_timeseries("z", fs2, L, spec, seed)
+        fresh, _ = build(c)
+        _, s_fresh = surface_timeseries("z", fs2, L, fresh, seed)
+        require(np.asarray(s_reuse).tobytes() == np.asarray(s_fresh).tobytes(),
+                "series_does_not_depend_on_earlier_calls_with_the_same_object",
+                f"fs={fs} then fs2={fs2} L={L}: max diff={np.abs(np.asarray(s_reuse) - np.asarray(s_fresh)).max()!r}")
+    if c.get("modify_in_place"):
+        if c["modify_in_place"] == "setitem":
+            spec["variance_density"] = spec.variance_density * sc
+        else:
+            spec.multiply(np.full(len(c["f"]), sc), ["frequency"], inplace=True)
+        _, s_mod = surface_timeseries("z", fs, L, spec, seed)
+        ref = math.sqrt(sc) * series["z"]
+        tol = 1e-11 * max(float(np.abs(ref).max()), 1e-300)
+        require(np.abs(np.asarray(s_mod) - ref).max() <= tol, "scaling_by_c_scales_series_by_sqrt_c",
+                f"object scaled in place ({c['modify_in_place']}) c={sc} max diff={np.abs(np.asarray(s_mod) - ref).max()!r}")
     classes = (["energy_in_last_direction_bin_of_grid_not_starting_at_0"]
                if c["two_d"] and c["bin"] == c["nd"] - 1 and (c["t0"] != 0.0 or c.get("labels") == "pm180") else [])
     classes += ["2d" if c["two_d"] else "1d", "odd_L" if L % 2 else "even_L",
                "L>=600" if L >= 600 else "L<600"]
+    if fs2 and fs2 != fs:
+        classes.append("same_object_second_sampling_rate")
+    if c.get("modify_in_place"):
+        classes.append("object_scaled_in_place_" + c["modify_in_place"])
     oblique = (not c["two_d"]) or (abs(theta % 90.0) > 1e-9)
     if c["two_d"] and oblique:
         classes.append("oblique_direction")
